@@ -14,7 +14,15 @@ import (
 	"golang.org/x/tools/go/ssa/ssautil"
 )
 
-const repoUtils = "/repo/utils"
+// repoRoot is /repo unless GOVC_REPO points at a scratch copy (selftest only).
+var repoRoot = func() string {
+	if r := os.Getenv("GOVC_REPO"); r != "" {
+		return r
+	}
+	return "/repo"
+}()
+var repoUtils = repoRoot + "/utils"
+
 const modPath = "github.com/ARM-software/golang-utils/utils"
 
 type Loaded struct {
